@@ -5,10 +5,22 @@ failure); next() outside Active is Ok(None) without effect; finish() = the serve
 stream was read to the end, rc 88 otherwise, rc 80 the second time (on all five chains); Ldap::search() returns the entries
 in order, merges reference URIs into the result's referral list and drops intermediate messages.  Class keys `c10:...`."""
 import streamlane
+import connlane as L
+
+CONN_PROFILES = {"quick": [("timeouts", 150), ("plain", 80)], "thorough": [("timeouts", 2500), ("plain", 1000), ("mixed", 1500)]}
+CONN_RULE = ("connection lane: the same seeded concurrent scenarios as C01/C12 (timed and untimed streams, direct and EntriesOnly, "
+             "early finish, extra next() calls after the end / after a timeout / after a failure); C10 owns the state() reported "
+             "after every stream call, next() outside Active (must be an immediate Ok(None)), finish codes, and panics inside stream calls")
+
+
+def conn_extra(tier):
+    def f(chk):
+        L.lane_into(chk, "C10", [], CONN_PROFILES[tier], CONN_RULE, [])
+    return f
 
 
 def run(tier):
-    return streamlane.run("C10", tier)
+    return streamlane.run("C10", tier, extra=conn_extra(tier))
 
 
 def replay(path):
